@@ -28,6 +28,10 @@ type TSM struct {
 	FailKind string
 	calls  int
 	Fired  bool
+	// UnboundIndex: what reading "index" of an entry not yet bound gives — 0 an error, 1 empty content
+	// (as go-configfs-tsm's fake shows it), 2 "-1\n".  IndexNoNewline: a bound index reads "2" instead of "2\n".
+	UnboundIndex   int
+	IndexNoNewline bool
 }
 
 // TSMEntry is one directory under rtmrs/.
@@ -183,12 +187,19 @@ func (t *TSM) ReadFile(name string) ([]byte, error) {
 	}
 	switch attr {
 	case "index":
+		if ent.Index < 0 && !ent.Unreadable && t.UnboundIndex != 0 {
+			t.rec("read", name, nil, nil)
+			return []byte([]string{"", "", "-1\n"}[t.UnboundIndex]), nil
+		}
 		if ent.Unreadable || ent.Index < 0 {
 			err := fmt.Errorf("simulated TSM: cannot read %s", name)
 			t.rec("read", name, nil, err)
 			return nil, err
 		}
 		t.rec("read", name, nil, nil)
+		if t.IndexNoNewline {
+			return []byte(strconv.Itoa(ent.Index)), nil
+		}
 		return []byte(strconv.Itoa(ent.Index) + "\n"), nil
 	case "digest":
 		if ent.Index < 0 {
